@@ -87,6 +87,24 @@ class Report:
         return True
 
 
+class RuleView:
+    """A view of a Report that files the instances of a shared rule function under another rule name
+    (a rule owned by one property reused as a necessary condition of another)."""
+
+    def __init__(self, rep, mapping):
+        self._rep = rep
+        self._map = mapping
+
+    def __getattr__(self, n):
+        return getattr(self._rep, n)
+
+    def ok(self, rule, key, sample=None, nontrivial=True):
+        self._rep.ok(self._map.get(rule, rule), key, sample=sample, nontrivial=nontrivial)
+
+    def fail(self, rule, key, msg, site=None, detail=None):
+        self._rep.fail(self._map.get(rule, rule), key, msg, site=site, detail=detail)
+
+
 def _short(x, n=1500):
     s = x if isinstance(x, str) else json.dumps(x, default=str)
     return s if len(s) <= n else s[:n] + "..."
